@@ -1,5 +1,115 @@
+import Casket.Model.Accounting
+import Casket.Spec.Accounting
 import Driver.Proto
-/- Streams of C14 (stub: not built yet). -/
+/-
+Streams of C14.
+  c14.sched  nHosts maxConns maxFails expiry unhealthyBits nThreads events retry
+     retry   1 = try_duration > 0: a failed request goes back to selecting
+     expiry  0 failures not counted (fail_timeout 0) | 1 counted, never expiring within the run | 2 counted, expiring at once
+             | 3 counted, the event `w` waits for the oldest outstanding failure to expire
+     events  comma list of  t:x   (thread t runs to its next blocking point; x = preferred backend / outcome code)
+     out   = snapshots joined by ";" :  label|conns|fails|inflight   (lists joined by ",")
+             label = sel:h none fwd:h lost:h fin:h:o noop final      o = ok err cancel big panic
+-/
 namespace Driver.C14
-def streams : List Driver.Stream := []
+open Casket.Accounting Casket.AccountingSpec
+
+def parseExpiry : String → Option Expiry
+  | "0" => some .off
+  | "1" => some .never
+  | "2" => some .immediate
+  | "3" => some .delayed
+  | _ => none
+
+def parseEvent (s : String) : Option (Nat × Nat) :=
+  match s.splitOn ":" with
+  | [t, x] => do pure (← t.toNat?, ← x.toNat?)
+  | ["w"] => some (waitMark, 0)
+  | _ => none
+
+structure Case where
+  cfg : Cfg
+  ex : Expiry
+  nThreads : Nat
+  events : List (Nat × Nat)
+
+def parseCase : List String → Option Case
+  | [n, mc, mf, ex, unh, nt, evs, retry] => do
+    let ex ← parseExpiry ex
+    let events ← if evs = "" then some [] else (evs.splitOn ",").mapM parseEvent
+    pure { cfg := { nHosts := ← n.toNat?, maxConns := ← mc.toNat?, maxFails := ← mf.toNat?,
+                    countFails := ex != .off, unhealthy := Driver.bits unh, retry := retry == "1" },
+           ex := ex, nThreads := ← nt.toNat?, events := events }
+  | _ => none
+
+def showOutcome : Outcome → String
+  | .ok => "ok" | .err => "err" | .cancel => "cancel" | .tooLarge => "big" | .panic => "panic"
+
+def showLabel : Label → String
+  | .sel h => s!"sel:{h}"
+  | .none => "none"
+  | .fwd h => s!"fwd:{h}"
+  | .lost h => s!"lost:{h}"
+  | .fin h o => s!"fin:{h}:{showOutcome o}"
+  | .noop => "noop"
+  | .exp h => s!"exp:{h}"
+  | .final => "final"
+
+def showInts (l : List Int) : String := ",".intercalate (l.map toString)
+
+def showSnap (s : Snap) : String :=
+  showLabel s.label ++ "|" ++ showInts s.conns ++ "|" ++ showInts s.fails ++ "|" ++ Driver.showNatList s.inflight
+
+def schedModel (f : List String) : String :=
+  match parseCase f with
+  | none => "bad-case"
+  | some c => ";".intercalate ((replay c.cfg c.ex (State.init c.cfg c.nThreads) [] c.events).map showSnap)
+
+def parseIntD (s : String) : Option Int :=
+  if s.startsWith "-" then (s.drop 1).toNat?.map fun n => -(n : Int) else s.toNat?.map fun n => (n : Int)
+
+def parseInts (s : String) : Option (List Int) :=
+  if s = "" then some [] else (s.splitOn ",").mapM parseIntD
+
+def parseOutcome : String → Option Outcome
+  | "ok" => some .ok | "err" => some .err | "cancel" => some .cancel | "big" => some .tooLarge | "panic" => some .panic
+  | _ => none
+
+def parseLabel (s : String) : Option Label :=
+  match s.splitOn ":" with
+  | ["sel", h] => h.toNat?.map .sel
+  | ["none"] => some .none
+  | ["fwd", h] => h.toNat?.map .fwd
+  | ["lost", h] => h.toNat?.map .lost
+  | ["fin", h, o] => do pure (.fin (← h.toNat?) (← parseOutcome o))
+  | ["noop"] => some .noop
+  | ["exp", h] => h.toNat?.map .exp
+  | ["final"] => some .final
+  | _ => none
+
+def parseSnap (s : String) : Option Snap :=
+  match s.splitOn "|" with
+  | [l, c, f, i] => do
+    pure { label := ← parseLabel l, conns := ← parseInts c, fails := ← parseInts f, inflight := ← Driver.natList i }
+  | _ => none
+
+def schedJudge (f : List String) (out : String) : String :=
+  if out.startsWith "rule-applied-" then
+    "bad:rule-reapplied:a request that lost its slot and selected again was forwarded with a header_upstream + rule applied more than once (C04)" else
+  let parts := out.splitOn ";"
+  let stuck := parts.getLast?.map (·.startsWith "stuck") == some true
+  let parts := if stuck then parts.dropLast else parts
+  match parseCase f, parts.mapM parseSnap with
+  | some c, some snaps =>
+    -- a run that got stuck has no final snapshot; judge what was observed up to there first
+    let v := verdict c.cfg c.ex snaps
+    if v != "ok" then v
+    else if stuck then "bad:stuck:a request neither reached its next Select nor ended (" ++ out.takeRight 30 ++ ")"
+    else "ok"
+  | _, _ => "bad:unparsable:" ++ out
+
+def streams : List Driver.Stream := [
+  { name := "c14.sched", model := schedModel, judge := schedJudge }
+]
+
 end Driver.C14
